@@ -884,8 +884,38 @@ pub fn c10_units(x: &str, tws: &[u8], cis: &[u8], base: &Cfg, ctx: &mut Ctx) {
             })
             .collect()
     };
-    let t0 = lead(&ctx.fmt(&mk(true, 2, 0), x), b'\t');
-    let t1 = lead(&ctx.fmt(&mk(true, 2, 1), x), b'\t');
+    let o0 = ctx.fmt(&mk(true, 2, 0), x);
+    let o1 = ctx.fmt(&mk(true, 2, 1), x);
+    // with hard tabs the unit is one tab inside a re-indented literal as well: its lines carry the
+    // indentation string of the line that holds the opening quotes
+    if base.fms {
+        for o in [&o0, &o1] {
+            let toks = r::scan(o);
+            let mask = verbatim_mask(o, &toks);
+            for (k, t) in toks.iter().enumerate() {
+                if mask[k] || t.kind != Kind::Text(TextKind::MultiLine) {
+                    continue;
+                }
+                let l = ml_lit(t.text(o));
+                if l.value.is_none() {
+                    continue;
+                }
+                let line_start = o[..t.start].rfind('\n').map(|p| p + 1).unwrap_or(0);
+                let open: String = o[line_start..].chars().take_while(|c| *c == '\t' || *c == ' ').collect();
+                if l.base != open || !l.base.bytes().all(|c| c == b'\t') {
+                    ctx.fail(
+                        "C10",
+                        "literal-indentation-not-in-tab-units",
+                        format!("use_tabs=true: a re-indented literal is indented {:?}, the line of its opening quotes {:?}; output {o:?}", l.base, open),
+                        json!({"oracle": "c10_units", "input": x, "cfg": base, "tw": 2, "ci": 0}),
+                    );
+                    return;
+                }
+            }
+        }
+    }
+    let t0 = lead(&o0, b'\t');
+    let t1 = lead(&o1, b'\t');
     if t0.len() != t1.len() {
         return; // reported by c10_linear
     }
